@@ -76,6 +76,7 @@ ALGO_NAME = {"DQN": "DQN", "RainbowDQN": "Rainbow DQN", "DDPG": "DDPG", "TD3": "
              "NeuralUCB": "NeuralUCB", "NeuralTS": "NeuralTS", "MADDPG": "MADDPG", "MATD3": "MATD3", "IPPO": "IPPO"}
 ENVS = ["single", "vec1", "vec2", "vec3"]
 BANDIT_ENVS = ["bandit64", "bandit32"]   # BanditEnv as is (float64 contexts) | contexts and rewards cast to float32
+OFF_EVO = 14      # off-policy evo_steps: divisible by 2, NOT by 3 -> with vec3 a generation takes (14 // 3) * 3 = 12 environment steps
 NUM_ENVS = {"single": 1, "vec1": 1, "vec2": 2, "vec3": 3, "bandit64": 1, "bandit32": 1}
 MEMS = ["uniform", "nstep", "per", "per+nstep"]
 EVOS = ["none", "tourn", "arch", "param", "act", "rlhp"]
@@ -201,7 +202,7 @@ def bounds(tier):
                    {"scheduling": "algo x memory x env kind x learn_step x pop {1,2} x evolution {none,tourn,arch,rlhp}",
                     "evolution": "algo (x {uniform, per+nstep} for Rainbow) x 6 evolution kinds x pop {1,2,3} x 3 budgets x checkpoint {off,on}",
                     "heterogeneous_learn_step": "on-policy: members with learn_step 2,4,6 x {vec2,vec3} x pop {2,3} x {none,tourn,rlhp} x budgets", "extras": "alternative action space (PPO/IPPO box, MADDPG/MATD3 discrete) x env kind x {tourn,arch,rlhp}; same-step autoreset x {vec2,vec3} x learn_step; target {-1e9,1e9}"}),
-        "sizes": {"evo_steps": "off 12, on 8, offline 4, bandit episode_steps 4 (=evo_steps), multi-agent 12", "episode_length": EP_LEN, "eval_steps": EVAL_STEPS,
+        "sizes": {"evo_steps": "off 14 (vec3 does not divide it: a generation is 12 real steps there), on 8, offline 4, bandit episode_steps 4 (=evo_steps), multi-agent 12", "episode_length": EP_LEN, "eval_steps": EVAL_STEPS,
                   "eval_loop": 1, "batch_size": BATCH, "buffer": 64, "nets": "latent 16, hidden [16]"},
         "points": len(pts), "points_per_loop": per_loop,
     }
@@ -232,7 +233,7 @@ def ref_gen_steps(c):
     """Environment steps one agent takes in one generation, from the documented meaning of evo_steps / learn_step."""
     n = NUM_ENVS[c["env"]]
     if c["loop"] in ("off", "maoff"):
-        e = 12
+        e = OFF_EVO
         return (e // n) * n
     if c["loop"] in ("on", "maon"):
         e = 8
@@ -241,7 +242,7 @@ def ref_gen_steps(c):
 
 
 def evo_steps(c):
-    return {"off": 12, "maoff": 12, "on": 8, "maon": 8, "offline": 4, "bandit": 4}[c["loop"]]
+    return {"off": OFF_EVO, "maoff": OFF_EVO, "on": 8, "maon": 8, "offline": 4, "bandit": 4}[c["loop"]]
 
 
 def max_steps_for(c):
